@@ -701,6 +701,55 @@ func init() {
 	})
 
 	register(&Rule{
+		Name:  "BLOCK-CURSOR",
+		Floor: 1,
+		Doc:   "the byte-copy path parses every stored-field block from its start: the in-block cursor that is compared with len(uncompressed) starts at the constant 0 for each block (it is not carried over from the previous block)",
+		Run: func(c *Ctx, scope string, r *Report) {
+			fn := c.MustFn("(*Segment).copyStoredDocs")
+			key := fnName(fn) + "/in-block-cursor"
+			found := false
+			for _, h := range fn.Blocks {
+				if !isLoopHeader(h) {
+					continue
+				}
+				ifi, ok := h.Instrs[len(h.Instrs)-1].(*ssa.If)
+				if !ok {
+					continue
+				}
+				bin, ok := ifi.Cond.(*ssa.BinOp)
+				if !ok || bin.Op != token.LSS {
+					continue
+				}
+				if _, name, ok := lenOrCapOf(bin.Y); !ok || name != "len" {
+					continue
+				}
+				phi, ok := bin.X.(*ssa.Phi)
+				if !ok || phi.Block() != h {
+					continue
+				}
+				found = true
+				bad := ""
+				for i, e := range phi.Edges {
+					if h.Dominates(h.Preds[i]) {
+						continue // back edge
+					}
+					if k, isK := constInt(e); !isK || k != 0 {
+						bad = "the in-block cursor enters the per-record loop with " + exprSig(e, 0) + " instead of 0: records of the next block are parsed from the previous block's end offset"
+					}
+				}
+				if bad != "" {
+					r.bad(key, fnName(fn), c.pos(phi.Pos()), bad)
+				} else {
+					r.ok(key, fnName(fn), c.pos(phi.Pos()), "cursor starts at 0 for every block")
+				}
+			}
+			if !found {
+				r.undecided(key, fnName(fn), c.pos(fn.Pos()), "no `for cursor < len(block)` loop found")
+			}
+		},
+	})
+
+	register(&Rule{
 		Name:  "STORED-OFFSET-SOURCE",
 		Floor: 3,
 		Doc:   "every entry of a stored-field offsets index (docStoredOffsets / docNumOffsets) is the chunked document coder's Size() taken immediately before the Add of that document on the same coder (builder, merge re-encode path and merge byte-copy path agree)",
